@@ -210,6 +210,9 @@ def run_domain(ctx, rng, w, actions, thorough, n_orders):
                     if d:
                         bad = (order, d, got)
                         break
+                    if order == "natural" and rng.random() < 0.5:
+                        # two-step history: apply a second action to the successor object just returned
+                        chain_step(ctx, rng, dom, dom_m, wm, sf, w, got_state, exp, text)
                 if bad:
                     order, d, got = bad
                     m = mech(d, tags)
@@ -230,6 +233,39 @@ def run_domain(ctx, rng, w, actions, thorough, n_orders):
     for k, orders in sched.OBSERVED.items():
         for o in orders:
             ctx.seen("orders:" + k, o)
+
+
+def chain_step(ctx, rng, dom, dom_m, wm, sf, w, lib_state, model_state, text):
+    names = list(dom_m.actions)
+    rng.shuffle(names)
+    for an in names[:3]:
+        act = dom_m.actions[an]
+        calls = model.type_correct_calls(wm, act)
+        rng.shuffle(calls)
+        for call in calls[:4]:
+            try:
+                exp2 = model.successor(wm, act, call, model_state)
+            except (model.Outside, model.Inconsistent):
+                continue
+            if exp2 is None:
+                continue
+            b = model.binding(act, call)
+            if any(0 < x < Fraction(1, 1000) for x in model.cmp_margins(wm, act.pre, model_state, b) + model.cmp_margins(wm, act.eff, model_state, b)):
+                continue
+            try:
+                got2 = lib.read_state(lib.make_operator(dom, an, call, sf.objects_table()).apply(lib_state))
+            except BaseException:
+                ctx.count("refused:apply-chain")
+                return
+            ctx.count("compared")
+            ctx.count("compared:second-step")
+            d = diff_states(exp2, got2)
+            if d:
+                ctx.violation(mech(d, set()) + "{second-step-on-a-returned-state}",
+                              {"domain": text, "action": an, "call": list(call), "objects": w.objects, "state": model.show_state(model_state),
+                               "expected": model.show_state(exp2), "observed": model.show_state(got2), "diff": d,
+                               "note": "the pre-state is the State object returned by a previous apply()"})
+            return
 
 
 def gen_action(rng, w):
